@@ -1,6 +1,8 @@
 import Mouette.Props.C01
 import Mouette.Lemmas.C01Source
 import Mouette.Lemmas.C01HalfEdge
+import Mouette.Lemmas.C01Sort
+import Mouette.Lemmas.C01Acc
 /-!
 # C01 (part 4) — method bodies TRANSLATED from `surface.py` / `linear.py`
 
@@ -224,6 +226,68 @@ theorem source_direct_face_spec (hO : Oriented faces) (hnd : ∀ F ∈ faces, F.
   rw [source_direct_face_eq_model nv so hnd]; exact directFace_eq_spec nv so hO u v f
 
 end halfEdges
+
+/-! ## the walk loops of `_sort_vertex_neighborhoods` (`Generated/C01Sort.lean`) -/
+section sortWalks
+open Mouette.Lemmas.C01Sort Mouette.Generated.C01Sort
+
+/-- **bridge, backward walk** (`Cn = opposite_corner(previous_corner(Cn))`, ranks 0,-1,-2,…, `is_boundary` + `break` when it
+falls off the border): run over any iteration list `l`, the translated `for … break` loop leaves in `sort_index` the ranks of the
+model's `walkBack` with fuel `l.length` (in front of the entries that were there), and its `is_boundary` flag -/
+theorem source_sort_backward_walk_eq_model (S : Surf) (a b : V2Cn) (init : IdxDict) (l : List Nat) (c : Nat) (ind : Int)
+    (acc : List (Nat × Int)) :
+    ∃ ind' cn', l.foldl (sortVertexNeighborhoods_for2_step S a b) (false, dm acc ++ init, ind, false, some c) =
+      ((walkBack S l.length c ind acc).2, dm (walkBack S l.length c ind acc).1 ++ init, ind', (walkBack S l.length c ind acc).2, cn') :=
+  for2_walkBack S a b init l c ind acc
+
+/-- **bridge, forward walk** (`Cn = next_corner(opposite_corner(Cn))`, ranks 0,1,2,…, `break` on the border): same statement with
+the model's `walkFwd`; entries under the key `None` can only appear in the case (impossible on a mesh) where `next_corner` of an
+existing opposite corner is `None` -/
+theorem source_sort_forward_walk_eq_model (S : Surf) (a b : V2Cn) (init : IdxDict) (l : List Nat) (c : Nat) (ind : Int)
+    (acc : List (Nat × Int)) :
+    ∃ ex : IdxDict, (∀ e ∈ ex, e.1 = none) ∧ ∃ brk ind' cn',
+      l.foldl (sortVertexNeighborhoods_for3_step S a b) (false, dm acc ++ init, ind, some c) =
+        (brk, ex ++ (dm (walkFwd S l.length c ind acc) ++ init), ind', cn') :=
+  for3_walkFwd S a b init l c ind acc
+
+/-- **the sort key of a corner** read from the dictionary the walks leave (`sort_index[c]`) is the model's `keyOf`: the initial
+zeros are the default, entries under `None` are never read -/
+theorem source_sort_corner_rank_eq_model (ex : IdxDict) (hex : ∀ e ∈ ex, e.1 = none) (acc : List (Nat × Int)) (cs : List Nat) (c : Nat) :
+    idxGet (ex ++ (dm acc ++ cs.map fun c => ((some c : Option Nat), (0 : Int)))) (some c) = keyOf acc c :=
+  idxGet_dm ex hex acc cs c
+
+/-! non-vacuity: 2×2 quad grid, interior vertex 4 (corners 2, 7, 9, 12): the backward walk closes up without meeting the border -/
+example : (List.range 4).foldl (sortVertexNeighborhoods_for2_step (build 9 [[0,1,4,3],[1,2,5,4],[3,4,7,6],[4,5,8,7]] true) [] [])
+    (false, [], 0, false, some 2) = (false, [(some 9, -3), (some 12, -2), (some 7, -1), (some 2, 0)], -4, false, some 2) := by
+  decide +kernel
+
+end sortWalks
+
+/-! ## search loops and cache reads (`Generated/C01Acc.lean`) -/
+section acc2
+open Mouette.Lemmas.C01Acc
+
+/-- **bridge** `in_face_index` (`for i,v in enumerate(face): if v==V: return i` … `return None`): the first position -/
+theorem source_in_face_index_eq_model (S : Surf) (a b : V2Cn) (f v : Nat) :
+    Mouette.Generated.C01Acc.inFaceIndex S a b f v = inFaceIndex S f v := inFaceIndex_bridge S a b f v
+/-- **bridge** `common_edge` (`for i in range(n): if opposite_face(A,B,iF1)==iF2: return keyify(A,B)` … `return None,None`) -/
+theorem source_common_edge_eq_model (S : Surf) (a b : V2Cn) (f1 f2 : Nat) :
+    Mouette.Generated.C01Acc.commonEdge S a b f1 f2 = commonEdge S f1 f2 := commonEdge_bridge S a b f1 f2
+theorem source_face_to_vertices_eq_model (S : Surf) (a b : V2Cn) (f : Nat) :
+    Mouette.Generated.C01Acc.faceToVertices S a b f = faceOf S f := rfl
+theorem source_edge_to_vertices_eq_model (S : Surf) (a b : V2Cn) (e : Nat) :
+    Mouette.Generated.C01Acc.edgeToVertices S a b e = edgeToVertices S e := edgeToVertices_bridge S a b e
+/-- `vertex_to_corners` / `vertex_to_vertices` are reads of the tables `_sort_vertex_neighborhoods` leaves -/
+theorem source_vertex_to_corners_reads_table (S : Surf) (a b : V2Cn) (ha : a = (List.range S.nv).map (vertexToCorners S)) (v : Nat)
+    (hv : v < S.nv) : Mouette.Generated.C01Acc.vertexToCorners S a b v = some (vertexToCorners S v) := vertexToCorners_bridge S a b ha v hv
+theorem source_vertex_to_vertices_reads_table (S : Surf) (a b : V2Cn) (hb : b = (List.range S.nv).map (vertexToVertices S)) (v : Nat)
+    (hv : v < S.nv) : Mouette.Generated.C01Acc.vertexToVertices S a b v = some (vertexToVertices S v) := vertexToVertices_bridge S a b hb v hv
+
+example : Mouette.Generated.C01Acc.commonEdge (build 4 [[0, 1, 2], [2, 1, 3]] true) [] [] 0 1 = some (1, 2) ∧
+    Mouette.Generated.C01Acc.inFaceIndex (build 4 [[0, 1, 2], [2, 1, 3]] true) [] [] 1 3 = some 2 ∧
+    Mouette.Generated.C01Acc.inFaceIndex (build 4 [[0, 1, 2], [2, 1, 3]] true) [] [] 0 3 = none := by decide +kernel
+
+end acc2
 
 /-! non-vacuity: the translated functions run on two triangles sharing the edge 1-2 -/
 example : (Mouette.Generated.C01HE.computeConnectivity (build 4 [[0, 1, 2], [2, 1, 3]] true)).2.2.2.1 =
